@@ -105,6 +105,12 @@ let run (toks : string list) : string =
       let cls = if r.M.s_panic then "panic" else if r.M.s_err then "err" else "ok" in
       let dig = match r.M.s_input with Some inp -> hex_of_bytes (M.sha256 inp) | None -> "noinput" in
       Printf.sprintf "%s %d %s %s" cls (int_of_nat r.M.s_n) (hex_of_bytes r.M.s_out) dig
+  | "smimefail" :: spec :: sb :: _ ->
+      (* S/MIME render of a message that cannot be rendered: nothing is signed (the signer is never asked) *)
+      let (m, date, msgid, rb) = parse_msg spec in
+      let r = M.write_to_signed (fun _ -> []) date msgid rb (bytes_of_hex sb) m M.unlimited in
+      let cls = if r.M.s_panic then "panic" else if r.M.s_err then "err" else "ok" in
+      Printf.sprintf "%s %d %s" cls (int_of_nat r.M.s_n) (hex_of_bytes r.M.s_out)
   | "build" :: spec :: menc :: ops :: _ ->
       (* builder calls applied one by one to the empty message with the given headers; the observable is the
          resulting part / embed / attachment lists and whether any header is left *)
